@@ -80,16 +80,39 @@ def cases(rng, tier):
             ops += [("C",), ("O",)]
         ops += [("R",), ("O",)]
         out.append(shardprop.mk_case("compact-many-zones", cfg, ntypes, nctx, ops))
-    # a read fault on one input of the round (its .zones file cannot be opened): the round must not retire what it
-    # could not read; after the file is back every event is still there, also after a further round and a restart
-    for j in range(2 if tier == "quick" else 40):
+    # a lone segment climbs one level per round (fan-in 2): after ten rounds its directory name has six digits
+    # (100000); the events must survive a restart at every level
+    for j in range(1 if tier == "quick" else 6):
         cfg = dict(rng.choice(shardprop.CFGS)); cfg["segments_per_merge"] = 2
         ntypes, nctx = rng.range(1, 2), rng.range(1, 2)
         cap = cfg["fill_factor"] * cfg["event_per_zone"]
         ops = []
         for s_ in range(2):
-            ops += [("S", 0 if ntypes == 1 or rng.chance(2, 3) else 1, rng.below(nctx)) for _ in range(cap)]
-        ops += [("O",), ("HIDE", rng.below(2), 0), ("C",), ("UNHIDE",), ("O",)]
+            ops += [("S", rng.below(ntypes), rng.below(nctx)) for _ in range(cap)]
+        ops += [("O",)]
+        for r_ in range(rng.range(10, 12)):
+            ops += [("C",)]
+            if r_ in (3, 8):
+                ops += [("O",)]
+        ops += [("O",), ("R",), ("O",)]
+        out.append(shardprop.mk_case("compact-deep-levels", cfg, ntypes, nctx, ops))
+    # a read fault on one input of the round (its .zones file cannot be opened): the round must not retire what it
+    # could not read; after the file is back every event is still there, also after a further round and a restart
+    for j in range(2 if tier == "quick" else 40):
+        cfg = dict(rng.choice(shardprop.CFGS)); cfg["segments_per_merge"] = 2
+        # every second history: two event types in both input segments, so that ONE batch carries both types and the
+        # fault hits exactly one of them (a batch must not be committed for a type it could not merge)
+        ntypes, nctx = (2 if j % 2 == 0 else rng.range(1, 2)), rng.range(1, 2)
+        cap = cfg["fill_factor"] * cfg["event_per_zone"]
+        if ntypes == 2 and j % 2 == 0 and cap < 2:
+            cfg = {"fill_factor": 2, "event_per_zone": 2, "segments_per_merge": 2}; cap = 4
+        ops = []
+        for s_ in range(2):
+            seg_ops = [("S", 0 if ntypes == 1 or rng.chance(2, 3) else 1, rng.below(nctx)) for _ in range(cap)]
+            if ntypes == 2 and j % 2 == 0:
+                seg_ops[0] = ("S", 0, rng.below(nctx)); seg_ops[-1] = ("S", 1, rng.below(nctx))
+            ops += seg_ops
+        ops += [("O",), ("HIDE", rng.below(2), rng.below(ntypes) if j % 2 == 0 else 0), ("C",), ("UNHIDE",), ("O",)]
         if rng.chance(1, 2):
             ops += [("C",), ("O",)]
         # no restart here: the failed round can leave its partly written output directory behind, and a restart
